@@ -1,10 +1,10 @@
 (** C11 — span-scoped directives: the per-thread stack of raised levels equals, for well-nested histories, the list of
     currently entered spans that a dynamic directive cares about, each with the level of the directives its values
     satisfied when it was entered; nothing stays behind after an exit. *)
-From TV Require Import Levels.Model Levels.Proofs Directive.Model Directive.Order Directive.Static Directive.Text.
+From TV Require Import Levels.Model Levels.Proofs Directive.Model Directive.Order Directive.Static Directive.Text Directive.Dyn.
 From Coq Require Import Lia.
 Local Open Scope N_scope.
-Local Opaque gen_add_recomputes_max gen_debug_match_exact.
+Local Opaque gen_add_recomputes_max gen_debug_match_exact gen_valuematch_eq_debug.
 
 (** * association lists *)
 Lemma assoc_put {A} k k' (v : A) l : assoc_n k (put_n k' v l) = if k =? k' then Some v else assoc_n k l.
@@ -304,28 +304,6 @@ Proof. split; simpl; auto; try (intros tid id []). Qed.
 Lemma scope_refines e evs : well_nested e evs ->
   inv e (frun e evs) (arun e evs).
 Proof. intros W. apply inv_run; auto. apply inv0. Qed.
-
-(** * the level maximum bounds every directive's level *)
-Lemma ds_max_ge {T} (cmp : T -> T -> comparison) (lvl : T -> option lv) (l : list T) :
-  forall d, In d (ds_dirs (ds_build cmp lvl l)) -> lf_rank (lvl d) <= lf_rank (ds_max (ds_build cmp lvl l)).
-Proof.
-  induction l as [|x l IH] using rev_ind; simpl; [tauto|].
-  unfold ds_build in *. rewrite fold_left_app. simpl. set (ds := fold_left (ds_add cmp lvl) l ds_empty) in *.
-  intros d Hd. unfold ds_add in *. simpl in *.
-  assert (Hin : forall d, In d (insert cmp x (ds_dirs ds)) -> d = x \/ In d (ds_dirs ds)).
-  { clear. induction (ds_dirs ds) as [|y r IHr]; simpl; intros d.
-    - intros [<-|[]]; auto.
-    - destruct (cmp y x); simpl.
-      + intros [<-|H]; auto.
-      + intros [<-|H]; auto. destruct (IHr _ H); auto.
-      + intros [<-|[<-|H]]; auto. }
-  destruct (gen_add_recomputes_max && existsb (fun y => is_eq (cmp y x)) (ds_dirs ds)).
-  - (* recomputed from the directives themselves *)
-    rewrite rank_fold. apply fold_max_ge. right. apply in_map. now apply in_map.
-  - destruct (Hin d Hd) as [->|H].
-    + apply lf_max_ge_r.
-    + etransitivity; [apply IH; auto | apply lf_max_ge_l].
-Qed.
 
 Lemma existsb_map {A B} (f : A -> B) (p : B -> bool) l : existsb p (map f l) = existsb (fun x => p (f x)) l.
 Proof. induction l as [|x l IH]; simpl; auto. now rewrite IH. Qed.
